@@ -11,6 +11,10 @@ var ErrOutOfTubes = errors.New("out of tube IDs")
 // ErrMuxerStopping indiates a new tube cannot be created because Muxer.Stop() has been called
 var ErrMuxerStopping = errors.New("muxer is stopping")
 
+// ErrAcceptQueueFull indicates that a tube requested by the peer was ignored
+// because too many accepted tubes are waiting for a call to Accept
+var ErrAcceptQueueFull = errors.New("accept queue full")
+
 // ErrBadTubeState indicates an operation was performed when a tube was in a state where that operation is not valid
 var ErrBadTubeState = errors.New("tube in bad state")
 
